@@ -153,6 +153,7 @@ class Env:
         self.inl.expand = self.sy.expand
         self.park_flags = None    # flags the loop thread has set on every path into wait() and clears only after it: reading one
                                   # false while holding the mutex proves that the thread is not blocked
+        self.carriers = {}        # constructor instantiation -> declarations that carry its user functor
         self.gone_flags = set()   # flags the loop thread stores before it gives up its thread while the AsyncLoop lives
         self.deferred = None      # std::function member of AsyncLoop that (re)launches the loop closure
         self.alias_pol = {}       # call expression -> False when it returns the *negation* of the value whose tokens it carries
@@ -212,6 +213,27 @@ def find_anchors(E):
             E.sy.bitwords[(DATA, words[0]['name'])] = bits
             for n_ in flag_names:
                 want.pop(n_)
+        elif len(words) == 1:
+            # the enumerators are not named after the flags: take every single-bit enumerator as a provisional flag; which bit
+            # plays which role is inferred from who writes it (infer_packed_roles)
+            prov = {}
+            for rec_ in (data[0], loop[0]):
+                for x in tu.walk(tu.node(rec_['id'])) if tu.node(rec_['id']) is not None else ():
+                    if x.get('kind') == 'EnumConstantDecl':
+                        vals = [y for y in tu.walk(x) if 'id' in y and tu.sd(y).get('cv') is not None]
+                        lits = [y.get('value') for y in tu.walk(x) if y.get('kind') in ('ConstantExpr', 'IntegerLiteral') and y.get('value') is not None]
+                        try:
+                            v = int(tu.sd(vals[0])['cv']) if vals else (int(lits[0]) if lits else None)
+                        except ValueError:
+                            v = None
+                        if v is not None and v > 0 and v & (v - 1) == 0:
+                            prov[v] = (DATA, 'bit:%s' % x.get('name'))
+            if len(prov) >= 3:
+                E.packed = words[0]['name']
+                E.provisional = prov
+                E.sy.bitwords[(DATA, words[0]['name'])] = dict(prov)
+                for n_ in flag_names:
+                    want.pop(n_)
     for name, ty in want.items():
         got = fields.get(name)
         if name in (CV[1], MTX[1]) and got is not None and got != ty and got.rstrip(' &*').strip() == ty:
@@ -312,24 +334,119 @@ def is_body_call(tu, n, fparam):
     return False
 
 
+def infer_packed_roles(E, per_ctor):
+    """packed flags with free enumerator names: the bit the loop thread sets is insideLoopBody, the bit start() sets (and stop()
+    clears) is shouldBeRunning, the other bit the destructor clears is threadShouldBeAlive.  Returns False if not unique."""
+    tu, sy = E.tu, E.sy
+    word = (DATA, E.packed)
+
+    def writes(top):
+        sets, clears = set(), set()
+        found = Found(E.inl)
+
+        def transfer(blk, i, e, st):
+            ev = sy.event(e)
+            if ev is not None and ev[0] == 'store' and ev[1] in E.provisional.values():
+                (sets if ev[2] else clears).add(ev[1])
+            return [st]
+        E.inl.explore(top, [0], transfer, None, C03Hooks(E, found, R1))
+        return sets, clears
+
+    loop_sets = set()
+    for f, cl in per_ctor:
+        for lam, op in cl:
+            loop_sets |= writes(op)[0]
+    start_sets = writes(E.start)[0]
+    stop_clears = writes(E.stop)[1]
+    dtor_clears = writes(E.dtor)[1]
+    run = start_sets & stop_clears or start_sets
+    alive = dtor_clears - run - loop_sets
+    if len(loop_sets) != 1 or len(run) != 1 or len(alive) != 1:
+        return False
+    role = {list(loop_sets)[0]: INSIDE, list(run)[0]: RUN, list(alive)[0]: ALIVE}
+    sy.bitwords[word] = {bit: role[fld] for bit, fld in E.provisional.items() if fld in role}
+    E.role_names = {v: k[1][4:] for k, v in role.items()}
+    return True
+
+
+def file_functions(E):
+    if not hasattr(E, '_file_fns'):
+        tu = E.tu
+        E._file_fns = [fn for fn in tu.functions.values() if not fn['dep'] and tu.body(fn) is not None and tu.fn_file(fn) == FILE]
+    return E._file_fns
+
+
+def launched_lambdas(E, fns):
+    """[(LambdaExpr, call operator, launching function)] for closures handed to std::thread / tasking::schedule in `fns`"""
+    tu = E.tu
+    out, seen = [], set()
+    for fn in fns:
+        for n in tu.walk(tu.body(fn)):
+            if 'id' not in n:
+                continue
+            k, q = n.get('kind'), tu.sd(n).get('q')
+            arg = None
+            if k in ('CXXConstructExpr', 'CXXTemporaryObjectExpr') and q == 'std::thread::thread' and tu.kids(n):
+                arg = tu.kids(n)[0]
+            elif k == 'CallExpr' and q == SCHEDULE and len(tu.kids(n)) > 1:
+                arg = tu.kids(n)[1]
+            lam = resolve_lambda(tu, E.sy, arg) if arg is not None else None
+            op = tu.functions.get(tu.sd(lam).get('op')) if lam is not None else None
+            if lam is not None and op is not None and tu.cfg(op) is not None and lam['id'] not in seen:
+                seen.add(lam['id'])
+                out.append((lam, op, fn))
+    return out
+
+
+def functor_carriers(E, f):
+    """declarations through which the user functor (first constructor parameter) travels inside AsyncLoop.h: parameters of own
+    functions that receive it, also wrapped in a closure that just calls it (e.g. converted to std::function); captures refer
+    to the captured declaration itself"""
+    tu = E.tu
+    carriers = {f['params'][0]['id']}
+    fns = file_functions(E)
+    launched = {lam['id'] for lam, _op, _fn in launched_lambdas(E, fns)}
+    for _ in range(6):
+        wrappers = set()
+        for fn in fns:
+            for x in tu.walk(tu.body(fn)):
+                if x.get('kind') == 'LambdaExpr' and 'id' in x and x['id'] not in launched:
+                    op = tu.functions.get(tu.sd(x).get('op'))
+                    if op is not None and tu.body(op) is not None and \
+                            any('id' in y and is_body_call(tu, y, carriers) for y in tu.walk(tu.body(op))):
+                        wrappers.add(x['id'])
+        changed = False
+        for fn in fns:
+            for x in tu.walk(tu.body(fn)):
+                if 'id' not in x:
+                    continue
+                cf = E.inl.callee(x)
+                if cf is None:
+                    continue
+                for p_, a_ in zip(cf.get('params', []), E.inl.args(x, cf)):
+                    if p_['id'] in carriers:
+                        continue
+                    if any((y.get('kind') == 'DeclRefExpr' and y.get('referencedDecl', {}).get('id') in carriers) or
+                           (y.get('kind') == 'LambdaExpr' and y.get('id') in wrappers) for y in tu.walk(a_)):
+                        carriers.add(p_['id'])
+                        changed = True
+        if not changed:
+            break
+    return carriers
+
+
 def loop_closures(E, f):
-    """[(LambdaExpr node, call-operator entry)] of the closures in constructor f that call the user functor"""
+    """[(LambdaExpr node, call-operator entry)]: the closures launched (std::thread / tasking::schedule) by constructor f or a
+    helper it calls, whose execution (helpers followed) calls the user functor"""
     tu = E.tu
     if not f.get('params'):
         return []
-    fparam = f['params'][0]['id']
+    carriers = functor_carriers(E, f)
+    E.carriers[f['id']] = carriers
     out = []
-    seen = set()
-    for n in tu.walk(tu.body(f)):
-        if n.get('kind') != 'LambdaExpr' or n['id'] in seen:
-            continue
-        seen.add(n['id'])
-        op = tu.functions.get(tu.sd(n).get('op'))
-        g = tu.cfg(op) if op else None
-        if g is None:
-            continue
-        if any(is_body_call(tu, s, fparam) for _b, _i, s in g.stmts()):
-            out.append((n, op))
+    for lam, op, _fn in launched_lambdas(E, E.inl.reachable_fns(f)):
+        if any(is_body_call(tu, s_, carriers) for fn in E.inl.reachable_fns(op) for _b, _i, s_ in tu.cfg(fn).stmts()):
+            out.append((lam, op))
     return out
 
 
@@ -373,6 +490,21 @@ def pred_tree(E, e):
     ft = E.flag_test(e)
     if ft is not None:
         return ('ld', ft[0]) if ft[1] else ('not', ('ld', ft[0]))
+    if k == 'BinaryOperator' and e.get('opcode') in ('==', '!='):
+        # (snapshot & MASK) != 0 / == 0, written out
+        pol, atom = sy.cond_atom(e)
+        ml = sy.masked_load(atom) if atom is not None else None
+        if ml is not None and ml[0] is not None:
+            return ('ld', ml[0]) if pol else ('not', ('ld', ml[0]))
+    if k in CALLS:
+        # a helper of AsyncLoop.h: [const snapshot = word.load();]* return <combination of flag tests>;
+        cf = tu.callee_fn(e)
+        body = tu.body(cf) if cf is not None and not cf.get('dep') and tu.fn_file(cf) == FILE else None
+        stmts = tu.kids(body) if body is not None else []
+        if stmts and stmts[-1].get('kind') == 'ReturnStmt' and tu.kids(stmts[-1]) and \
+                all(s_.get('kind') == 'DeclStmt' and all(v_.get('kind') != 'VarDecl' or (tu.kids(v_) and sy.word_load(tu.kids(v_)[-1]) is not None)
+                                                       for v_ in tu.kids(s_)) for s_ in stmts[:-1]):
+            return pred_tree(E, tu.kids(stmts[-1])[0])
     return None
 
 
@@ -497,7 +629,7 @@ def atom_token(tu, atom):
 def check_loop_closure(E, f, lam, op):
     ctx, tu, sy = E.ctx, E.tu, E.sy
     g = tu.cfg(op)
-    E.fids = {f['params'][0]['id']}
+    E.fids = set(E.carriers.get(f['id']) or {f['params'][0]['id']})
     fparam = E.fids
     found = Found(E.inl)
     cur = {}
@@ -1207,6 +1339,7 @@ def check_ctor(E, f, closures):
     # the launch-method parameter: possible values along the path (universe = the enumerators of its type), so that the
     # combinations of tests the constructor makes on it are followed exactly
     mparam = f['params'][1]['id'] if len(f.get('params', [])) > 1 else None
+    mvars = {mparam} if mparam is not None else set()
     universe = None
     if mparam is not None:
         ename = f['params'][1]['ct'].split('::')[-1]
@@ -1245,7 +1378,7 @@ def check_ctor(E, f, closures):
             return [st]
         k = n.get('kind')
         s = tu.sd(n)
-        if k == 'BinaryOperator' and n.get('opcode') == '=' and mparam is not None and sy.local_var(tu.kids(n)[0]) == mparam:
+        if k == 'BinaryOperator' and n.get('opcode') == '=' and mparam is not None and sy.local_var(tu.kids(n)[0]) in mvars:
             rhs = tu.strip(tu.kids(n)[1], casts=True)
             vals = None
             if const_int(rhs) is not None:
@@ -1293,7 +1426,7 @@ def check_ctor(E, f, closures):
                     E.deferred = fld_
                     kinds.add('task')
                     return [('deferred' if st[0] is None else 'twice',) + st[1:]]
-        if is_body_call(tu, n, f['params'][0]['id']):
+        if is_body_call(tu, n, E.carriers.get(f['id']) or {f['params'][0]['id']}):
             found.viol(R1, FN, 'body-called-by-constructor', 'the constructor itself invokes the user body, outside the loop thread and '
                        'its handshake', n)
         if k in ('CXXMemberCallExpr', 'CXXOperatorCallExpr'):
@@ -1322,19 +1455,26 @@ def check_ctor(E, f, closures):
         if atom.get('kind') == 'BinaryOperator' and atom.get('opcode') in ('==', '!=') and mparam is not None and mv is not None:
             a0, b0 = tu.kids(atom)
             for x, y in ((a0, b0), (b0, a0)):
-                if sy.local_var(x) == mparam and const_int(y) is not None:
+                if sy.local_var(x) in mvars and const_int(y) is not None:
                     eq = truth if atom['opcode'] == '==' else (not truth)
                     mv2 = (mv & {const_int(y)}) if eq else (mv - {const_int(y)})
                     return [(launched, mv2, bv)] if mv2 else []
         var = sy.local_var(atom)
-        if var is not None and var != mparam:
+        if var is not None and var not in mvars:
             seen = dict(bv).get(var)
             if seen is not None and seen != truth:
                 return []
             return [(launched, mv, frozenset(set(bv) | {(var, truth)}))]
         return [st]
 
-    res, outs = E.inl.explore(f, [(None, universe, frozenset())], transfer, refine, C03Hooks(E, found, R4))
+    class CtorHooks(C03Hooks):
+        def pre_call(self, n, cf, args, st):
+            for p_, a_ in zip(cf.get('params', []), args):
+                if sy.local_var(a_) in mvars:
+                    mvars.add(p_['id'])         # the launch method handed on to a helper (launch(body, m))
+            return C03Hooks.pre_call(self, n, cf, args, st)
+
+    res, outs = E.inl.explore(f, [(None, universe, frozenset())], transfer, refine, CtorHooks(E, found, R4))
     E.count(R4)
     for (st, _rv, via) in outs:
         if g.blocks[via].noret:
@@ -1840,25 +1980,19 @@ def check_tu(ctx, tu):
             ctx.broken('C03: expected exactly one closure calling the user body in %s (%s), found %d'
                        % (f['q'], tu.fn_loc(f), len(cl)))
             continue
-        launched = set()
-        for n in tu.walk(tu.body(f)):
-            if 'id' not in n:
-                continue
-            k, q = n.get('kind'), tu.sd(n).get('q')
-            arg = None
-            if k in ('CXXConstructExpr', 'CXXTemporaryObjectExpr') and q == 'std::thread::thread' and tu.kids(n):
-                arg = tu.kids(n)[0]
-            elif k == 'CallExpr' and q == SCHEDULE and len(tu.kids(n)) > 1:
-                arg = tu.kids(n)[1]
-            lam = resolve_lambda(tu, E.sy, arg) if arg is not None else None
-            if lam is not None:
-                launched.add(lam['id'])
+        launched = {lam['id'] for lam, _op, _fn in launched_lambdas(E, E.inl.reachable_fns(f))}
         if launched != {lam['id'] for lam, _op in cl}:
             ctx.undecided(R1, '%s %s [%s]' % (f['q'].replace('rkcommon::tasking::', ''), f['fty'], tu.config),
                           'the closure handed to std::thread / tasking::schedule is not the one that calls the user body directly '
                           '(nested closure or helper): not modelled', tu.fn_loc(f))
             continue
         per_ctor.append((f, cl))
+    if getattr(E, 'provisional', None):
+        if not per_ctor or not infer_packed_roles(E, per_ctor):
+            ctx.broken('C03: the flags are bits of %s::%s, but which bit is insideLoopBody / shouldBeRunning / threadShouldBeAlive '
+                       'cannot be inferred from who sets and clears them' % (DATA, E.packed))
+            return E
+        ctx.note('packed flags [%s]: %s' % (tu.config, ', '.join('%s = %s' % (k[1], v) for k, v in sorted(E.role_names.items()))))
     check_sync_ownership(E)
     # 1. loop closures first: they define the predicate-enabling stores
     for f, cl in per_ctor:
